@@ -93,6 +93,20 @@ def run_kani(scratch, harnesses, features=None, extra=(), timeout=1800, jobs=8, 
 
 def parse_kani(out, harnesses, rc, wall, cmd):
   res = {"_rc": rc, "_wall": wall, "_cmd": cmd, "_raw_tail": out[-6000:], "harness": {}}
+  # with -j N every print call is prefixed "Thread N: "; regroup per thread first
+  if re.search(r"(?m)^Thread \d+: ", out):
+    bufs, order, cur = {}, [], None
+    for ln in out.split("\n"):
+      m = re.match(r"Thread (\d+): ?(.*)$", ln)
+      if m:
+        cur = m.group(1)
+        if cur not in bufs:
+          bufs[cur] = []
+          order.append(cur)
+        bufs[cur].append(m.group(2))
+      elif cur is not None:
+        bufs[cur].append(ln)
+    out = "\n".join("\n".join(bufs[k]) for k in order)
   # split per harness
   chunks = re.split(r"(?m)^Checking harness ", out)
   for ch in chunks[1:]:
